@@ -146,7 +146,7 @@ class C06(Check):
     reference_models = ["ASan/UBSan(bounds) reports, terminating signals, step budget"]
 
     def budget(self, tier):
-        return {"runs": 1500, "wall_s": 100} if tier == "quick" else {"runs": 40000, "wall_s": 1500}
+        return {"runs": 1500, "wall_s": 100} if tier == "quick" else {"runs": 15000, "wall_s": 1500}
 
     def generate(self, rng, tier):
         kind = rng.weighted([("faults", 12), ("crashed_writer", 3), ("journal+faults", 3), ("journal", 1), ("orphan", 1), ("clean", 1),
